@@ -1203,7 +1203,7 @@ def judge_c17(ctx, r, out):
         funcs = []
         for blk in err.split('\n\n'):
             if 'leak of' in blk:
-                fr = re.findall(r'#\d+ 0x[0-9a-f]+ in (\S+) /repo/SRC', blk)
+                fr = re.findall(r'#\d+ 0x[0-9a-f]+ in (\S+) \S*/SRC/', blk)
                 fr = [re.sub(r'^p([sdcz])g', 'p?g', re.sub(r'^([sdcz])(Preset|Create|user_|gs|pivot)', r'?\2', f)) for f in fr if f not in ('superlu_malloc', 'intMalloc', 'intCalloc')]
                 if fr: funcs.append(fr[0])
         cls = 'query' if r['case'].get('ops') == 'Q' else ('ops:' + r['case'].get('ops', '?'))
